@@ -1,9 +1,180 @@
+import SwayVerif.Model.TestRun
 import SwayVerif.Driver.Util
-/-! Driver for C29 (stub — replace `answer`; keep `run`). -/
-namespace SwayVerif.Driver.C29
-open SwayVerif.Driver
+/-!
+Driver for C29 (see `harness/src/bin/sv_c29.rs` for the line formats).
 
-def answer (_line : String) : String := "unimplemented agree=0 prop=0"
+`test kind=<c|l> init=<a>,<b> <name> <cond> <ops> ;; ok cond=<c> state=<s> passed=<0|1> logs=<l> sawInitialStorage=<0|1|-> sameAlone=<0|1> sameFiltered=<0|1> samePermuted=<0|1> sameSerial=<0|1>`
+`suite kind=<c|l> init=<a>,<b> run=<r> filter=<none|exact:p|contains:p> <name:cond:ops>… ;; ok <name:cond:state:passed:logs>…`
+-/
+namespace SwayVerif.Driver.C29
+open SwayVerif.TestRun SwayVerif.Driver
+
+def parseCond? (s : String) : Option Condition :=
+  match s.splitOn "." with
+  | ["none"] => some .shouldNotRevert
+  | ["any"] => some (.shouldRevert none)
+  | ["code", n] => n.toNat?.map fun c => .shouldRevert (some c)
+  | _ => none
+
+def showCond : Condition → String
+  | .shouldNotRevert => "none"
+  | .shouldRevert none => "any"
+  | .shouldRevert (some c) => s!"code.{c}"
+
+def condClass : Condition → String
+  | .shouldNotRevert => "none"
+  | .shouldRevert none => "any"
+  | .shouldRevert (some _) => "code"
+
+def parseState? (s : String) : Option State :=
+  match s.splitOn "." with
+  | ["return"] => some .ret
+  | ["returndata"] => some .retData
+  | ["revert", n] => n.toNat?.map .revert
+  | _ => none
+
+def showState : State → String
+  | .ret => "return"
+  | .retData => "returndata"
+  | .revert c => s!"revert.{c}"
+
+def stateClass : State → String
+  | .ret => "return"
+  | .retData => "returndata"
+  | .revert 0 => "revert0"
+  | .revert c => if c = assertCode then "revertAssert" else "revertN"
+
+def parseNats? (sep : String) (s : String) : Option (List Nat) :=
+  if s = "-" then some [] else
+  (s.splitOn sep).foldr (fun t acc => match acc, t.toNat? with
+    | some l, some n => some (n :: l)
+    | _, _ => none) (some [])
+
+def showNats (l : List Nat) : String :=
+  if l.isEmpty then "-" else ".".intercalate (l.map toString)
+
+def parseOp? (init : Storage) (s : String) : Option Op :=
+  match s.splitOn "." with
+  | ["log", v] => v.toNat?.map .log
+  | ["clog", v] => v.toNat?.map .log
+  | ["rd", k] => k.toNat?.map .read
+  | ["wr", k, v] => do pure (.write (← k.toNat?) (← v.toNat?))
+  | ["xi", k] => k.toNat?.map fun k => .expect k (init.getD k 0)
+  | ["rv", c] => c.toNat?.map .revert
+  | ["af"] => some (.revert assertCode)
+  | ["div0"] => some .vmPanic
+  | ["oob"] => some .vmPanic
+  | ["oog"] => some .vmPanic
+  | _ => none
+
+def parseOps? (init : Storage) (s : String) : Option (List Op) :=
+  if s = "-" then some [] else
+  (s.splitOn ",").foldr (fun t acc => match acc, parseOp? init t with
+    | some l, some o => some (o :: l)
+    | _, _ => none) (some [])
+
+def kvOf (key : String) (toks : List String) : Option String :=
+  toks.findSome? fun t => if t.startsWith (key ++ "=") then some ((t.drop (key.length + 1)).toString) else none
+
+def parseFlag? (s : String) : Option (Option Bool) :=
+  if s = "1" then some (some true) else if s = "0" then some (some false) else if s = "-" then some none else none
+
+def parseFilter? (s : String) : Option (Option Filter) :=
+  if s = "none" then some none else
+  match s.splitOn ":" with
+  | ["exact", p] => some (some ⟨p.toList, true⟩)
+  | ["contains", p] => some (some ⟨p.toList, false⟩)
+  | _ => none
+
+def parseInit? (s : String) : Option Storage := parseNats? "," s
+
+def usesStorage (ops : List Op) : Bool :=
+  ops.any fun | .read _ => true | .write _ _ => true | .expect _ _ => true | _ => false
+
+def answerTest (c i : List String) : String :=
+  let parsed : Option (Storage × List Char × Condition × List Op) := match c with
+    | [_kind, init, name, cond, ops] => do
+        let init ← (kvOf "init" [init]).bind parseInit?
+        let cond ← parseCond? cond
+        let ops ← parseOps? init ops
+        pure (init, name.toList, cond, ops)
+    | _ => none
+  match parsed with
+  | none => "bad-case agree=0 prop=0"
+  | some (init, name, cond, ops) =>
+    let m := run ⟨init⟩ (opsTest name cond ops)
+    let head := s!"state={showState m.state} passed={b01 m.passed} logs={showNats m.logs}"
+    let dist := s!"cond={condClass cond} st={stateClass m.state} pass={b01 m.passed} storage={b01 (usesStorage ops)}"
+    let impl : Option (Condition × State × Bool × List Nat × List (Option Bool)) := do
+      let ic ← (kvOf "cond" i).bind parseCond?
+      let st ← (kvOf "state" i).bind parseState?
+      let p ← (kvOf "passed" i).bind fun s => if s = "1" then some true else if s = "0" then some false else none
+      let lg ← (kvOf "logs" i).bind (parseNats? ".")
+      let fl ← ["sawInitialStorage", "sameAlone", "sameFiltered", "samePermuted", "sameSerial"].foldr
+        (fun k acc => match acc, (kvOf k i).bind parseFlag? with
+          | some l, some f => some (f :: l)
+          | _, _ => none) (some [])
+      pure (ic, st, p, lg, fl)
+    match impl with
+    | none => s!"{head} agree=0 prop=0 {dist} impl=unparsed"
+    | some (ic, st, p, lg, fl) =>
+      let agree := decide (ic = cond) && decide (st = m.state) && (p == m.passed) && decide (lg = m.logs)
+      let prop := testProp cond ops init ic st p lg fl
+      s!"{head} agree={b01 agree} prop={b01 prop} {dist}"
+
+def parseDecl? (init : Storage) (s : String) : Option (List Char × Condition × List Op) :=
+  match s.splitOn ":" with
+  | [n, c, o] => do pure (n.toList, ← parseCond? c, ← parseOps? init o)
+  | _ => none
+
+def parseRes? (s : String) : Option (Result × Bool) :=
+  match s.splitOn ":" with
+  | [n, c, st, p, lg] => do
+      let c ← parseCond? c
+      let st ← parseState? st
+      let p ← if p = "1" then some true else if p = "0" then some false else none
+      let lg ← parseNats? "." lg
+      pure ({ name := n.toList, cond := c, state := st, logs := lg }, p)
+  | _ => none
+
+def allSome {α : Type} (l : List (Option α)) : Option (List α) :=
+  l.foldr (fun x acc => match acc, x with
+    | some l, some a => some (a :: l)
+    | _, _ => none) (some [])
+
+def answerSuite (c i : List String) : String :=
+  match c with
+  | _kind :: init :: run :: filter :: decls =>
+    let parsed : Option (Storage × Option Filter × List (List Char × Condition × List Op)) := do
+      let init ← (kvOf "init" [init]).bind parseInit?
+      let f ← (kvOf "filter" [filter]).bind parseFilter?
+      let ds ← allSome (decls.map (parseDecl? init))
+      pure (init, f, ds)
+    match parsed with
+    | none => "bad-case agree=0 prop=0"
+    | some (init, f, ds) =>
+      let m := runAll ⟨init⟩ (ds.map fun d => opsTest d.1 d.2.1 d.2.2) f
+      let fk := match f with | none => "none" | some f => if f.exact then "exact" else "contains"
+      let head := s!"ran={m.length}"
+      let dist := s!"{run} fkind={fk} nsel={if m.length = 0 then "0" else if m.length = 1 then "1" else if m.length = ds.length then "all" else "some"}"
+      let rsOpt := match i with
+        | "ok" :: rs => allSome (rs.map parseRes?)
+        | _ => none
+      match rsOpt with
+      | none => s!"{head} agree=0 prop=0 {dist} impl=unparsed"
+      | some rs =>
+        let agree := decide (rs.map (·.1) = m) && rs.all (fun r => r.2 == r.1.passed)
+        let prop := suiteProp (ds.map fun d => (d.1, d.2.1)) f
+          (rs.map fun r => (r.1.name, r.1.cond, r.1.state, r.2))
+        s!"{head} agree={b01 agree} prop={b01 prop} {dist}"
+  | _ => "bad-case agree=0 prop=0"
+
+def answer (line : String) : String :=
+  let (c, i) := splitCase line
+  match c with
+  | "test" :: rest => answerTest rest i
+  | "suite" :: rest => answerSuite rest i
+  | _ => "bad-op agree=0 prop=0"
 
 def run : IO Unit := do
   lineLoop (← IO.getStdin) (← IO.getStdout) answer
